@@ -40,4 +40,43 @@ def clusterRange (dataStart bytesPerCluster c : Nat) : Nat × Nat :=
 /-- ext4 / iso9660 / squashfs: byte range of block `b` relative to the filesystem start -/
 def blockRange (blockSize b : Nat) : Nat × Nat := (b * blockSize, b * blockSize + blockSize)
 
+/-! ### backend/substorage.go as it is now: `Sub(u, offset, size)`
+
+  ReadAt / WriteAt add `offset` to the caller's offset and hand the call to the underlying storage: the window's
+  `size` is NOT consulted, nothing is refused and nothing is truncated (a write that straddles or lies behind the
+  window end, or starts at a negative offset that `offset` makes non-negative, goes through in full).  `size` is
+  used by Seek(SeekEnd) only.  Offsets are `Int` as Go's int64.  A nest `Sub(Sub(dev, a, s1), b, s2)` is the list
+  `[(b, s2), (a, s1)]`: the window the filesystem holds first. -/
+
+structure Win where
+  off : Nat
+  size : Nat
+deriving Repr, DecidableEq
+
+/-- the offset the device sees for a ReadAt / WriteAt at `off` issued through the nest -/
+def subAbs : List Win → Int → Int
+  | [], off => off
+  | w :: ws, off => subAbs ws ((w.off : Int) + off)
+
+inductive Whence where
+  | start | current | «end»
+deriving Repr, DecidableEq
+
+/-- Seek through the nest over a device of `devSize` bytes whose position is `upos` (the device refuses a
+    negative position and then keeps its position): `some (new device position, value returned to the caller)`,
+    `none` = error (the wrapper returns -1 and the error) -/
+def subSeek (devSize : Nat) : List Win → Int → Whence → Int → Option (Int × Int)
+  | [], upos, wh, offset =>
+    let np : Int := match wh with
+      | .start => offset
+      | .current => upos + offset
+      | .«end» => (devSize : Int) + offset
+    if np < 0 then none else some (np, np)
+  | w :: ws, upos, wh, offset =>
+    let inner := match wh with
+      | .start => subSeek devSize ws upos .start (offset + (w.off : Int))
+      | .current => subSeek devSize ws upos .current offset
+      | .«end» => subSeek devSize ws upos .start ((w.off : Int) + (w.size : Int) + offset)
+    inner.map fun r => (r.1, r.2 - (w.off : Int))
+
 end Diskfs.Ranges
